@@ -5,7 +5,7 @@
 # the verdicts are written to seeded/<seed-name>/detection.json.
 set -u
 NAME="$1"; shift
-SD=/verif/seeded/$NAME
+SD=${SEEDROOT:-/verif/seeded}/$NAME
 [ -f "$SD/patch.diff" ] || { echo "no such seed $NAME"; exit 2; }
 PROPS="$*"
 [ -n "$PROPS" ] || PROPS=$(python3 -c "import json;print(json.load(open('$SD/meta.json'))['property'])")
